@@ -677,3 +677,133 @@ func isErrorType(t types.Type) bool {
 	n, ok := t.(*types.Named)
 	return ok && n.Obj().Pkg() == nil && n.Obj().Name() == "error"
 }
+
+// SampleReplay (thorough tier): validates contracts and the engine's model of Go against the REAL code on the unchanged
+// tree: models of the precondition (staged sequence lengths) are replayed through the generated test; the compiled
+// post-conditions must hold on the real results.  Returns (#replays run, #passed, #not replayable, failures).
+func SampleReplay(p *Program, o CheckOpts, fc *FuncContract) (run, passed, skipped int, failures []string) {
+	fi := p.Funcs[fc.Key()]
+	if fi == nil || fc.Flags["callsites"] || fc.Flags["frameonly"] || len(fc.Ensures) == 0 {
+		return 0, 0, 1, nil
+	}
+	var su *Unit
+	func() {
+		defer func() { recover() }()
+		su = verifyFuncMode(p, fc, o.Prop, searchUnroll)
+	}()
+	if su == nil || su.Err != "" {
+		return 0, 0, 1, nil
+	}
+	w := su.World
+	g := &goGen{p: p, pkg: fi.Pkg.Name, specs: map[string]bool{}, imports: map[string]string{"testing": "testing", "fmt": "fmt"}}
+	type ent struct {
+		nt   NamedTerm
+		plan valuePlan
+	}
+	var ents []ent
+	add := func(nt NamedTerm) bool {
+		pl, ok := g.planFor(w, nt.Term, nt.GoT, 0)
+		if !ok {
+			return false
+		}
+		ents = append(ents, ent{nt, pl})
+		return true
+	}
+	if su.Recv != nil && !add(*su.Recv) {
+		return 0, 0, 1, nil
+	}
+	for _, pr := range su.Params {
+		if !add(pr) {
+			return 0, 0, 1, nil
+		}
+	}
+	for _, gh := range su.Ghosts {
+		if !add(gh) {
+			return 0, 0, 1, nil
+		}
+	}
+	var req *Obligation
+	for _, ob := range w.Obls {
+		if strings.HasSuffix(ob.Name, "/cover:requires") {
+			req = ob
+		}
+	}
+	if req == nil {
+		return 0, 0, 1, nil
+	}
+	var terms []string
+	for _, e := range ents {
+		terms = append(terms, e.plan.terms...)
+	}
+	work := filepath.Join(o.Verif, "work", o.Prop, "sample")
+	os.MkdirAll(work, 0o755)
+	pkgDir, _ := filepath.Rel(o.Repo, filepath.Dir(fi.File))
+	for n := 1; n <= 4; n++ {
+		var b strings.Builder
+		b.WriteString("(set-option :produce-models true)\n(set-option :smt.random_seed " + fmt.Sprint(n*7+1) + ")\n")
+		b.WriteString(w.Preamble(true))
+		for i := 0; i < req.FactsN && i < len(w.Facts); i++ {
+			b.WriteString("(assert " + w.Facts[i] + ")\n")
+		}
+		firstSeq := true
+		for _, e := range ents {
+			if w.IsSeq(e.nt.Term.Sort) {
+				if firstSeq && e.nt.CT == "" {
+					b.WriteString(fmt.Sprintf("(assert (= %s %d))\n", w.SeqLen(e.nt.Term).S, n))
+					firstSeq = false
+				} else {
+					b.WriteString(fmt.Sprintf("(assert (<= %s %d))\n", w.SeqLen(e.nt.Term).S, searchMaxLen))
+				}
+				b.WriteString(fmt.Sprintf("(assert (= %s 0))\n", w.SeqOff(e.nt.Term).S))
+			}
+		}
+		b.WriteString("(assert " + req.PC + ")\n(check-sat)\n(get-value (" + strings.Join(dedupe(terms), " ") + "))\n")
+		file := filepath.Join(work, fmt.Sprintf("%s_%d.smt2", sanitize(fc.Key()), n))
+		os.WriteFile(file, []byte(b.String()), 0o644)
+		r, out, _ := runSolver(solvers[0], file, 10*time.Second)
+		if r != "sat" {
+			continue
+		}
+		vals := parseGetValue(out)
+		var decls []string
+		ok := true
+		for _, e := range ents {
+			lit, good := e.plan.render(vals)
+			if !good {
+				ok = false
+				break
+			}
+			decls = append(decls, fmt.Sprintf("\t%s := %s", goName(e.nt.Name), lit))
+		}
+		if !ok {
+			continue
+		}
+		g2 := &goGen{p: p, pkg: fi.Pkg.Name, specs: map[string]bool{}, imports: map[string]string{"testing": "testing", "fmt": "fmt"}}
+		for _, e := range ents { // re-register type imports
+			g2.typeName(e.nt.GoT)
+		}
+		test, _ := g2.buildTest(fi, fc, su, decls)
+		if test == "" || g2.nChecked == 0 {
+			skipped++
+			return
+		}
+		tf := filepath.Join(work, "zz_gocv_replay_test.go")
+		os.WriteFile(tf, []byte(test), 0o644)
+		failed, output := RunOverlayTest(o.Repo, o.Verif, pkgDir, tf, "TestGocvReplay", "gocv_sample")
+		run++
+		switch {
+		case strings.Contains(output, "GOCV-REPLAY: VIOLATED") || strings.Contains(output, "GOCV-REPLAY: PANIC"):
+			failures = append(failures, fmt.Sprintf("%s with %s: %s", fc.Key(), strings.Join(decls, ";"), trimLong(output, 300)))
+		case strings.Contains(output, "GOCV-REPLAY: PRECONDITION"):
+			// the solver model does not satisfy the compiled precondition: windowed quantifiers/real sampling differ; not counted
+			run--
+		case failed:
+			run--
+			skipped++
+			return
+		default:
+			passed++
+		}
+	}
+	return
+}
